@@ -14,6 +14,16 @@ open JP JP.Typing JP.Lemmas
 /-- The registry extracted from the current source has the five standard functions with the RFC signatures. -/
 theorem registry_ok : StdTable (tableOfGenerated Generated.functions) := by decide
 
+/-- **Translated**: `Parser.COMPARISON_OPERATORS` as it is in the source lists exactly the operators the gate model
+    holds to the comparison typing rules (`==`, `!=`, `<>`, `<`, `<=`, `>`, `>=`, `=~`) and nothing else. -/
+theorem comparison_table_ok : comparisonTableOK Generated.comparisonOperators = true := by decide
+
+/-- `<>` is held to the typing rules `!=` is held to: the same queries are refused. -/
+theorem lg_gated_as_ne (tbl : FuncTable) (l r : Expr) :
+    gateExpr tbl (.infix l .lg r) = gateExpr tbl (.infix l .ne r) := by
+  simp [gateExpr, isComparisonOp, isLogicalOp]
+  rfl
+
 /-- **Gate = RFC typing**, for every standard query whose comparison operands are atoms, at any nesting
     depth (under `!`, inside `&&`/`||`, inside parentheses, as function arguments, in nested filters). -/
 theorem gate_iff_wt (tbl : FuncTable) (ht : StdTable tbl) (segs : List Seg)
